@@ -281,3 +281,77 @@ def check_add_loopless(ctx, rule: str) -> None:
         ctx.bad(rule, fn, "add_loopless formulation", "; ".join(problems[:2]))
     else:
         ctx.ok(rule, fn, "add_loopless formulation", f"{len(internal)} internal and {len(AL_RXNS) - len(internal)} boundary reactions, {len(AL_ROWS)} basis vectors: indicator / on-off / driving-force range per internal reaction with one M that covers every bound of the internal reactions, null-space rows over the right driving forces")
+
+
+# ------------------------------------------------------------------------------------ loopless_fva_iter
+def check_fva_iter(ctx, rule: str) -> None:
+    """loopless_fva_iter evaluated over the LP model with an oracle: for a reaction that is no boundary reaction the
+    plain optimum of the step may only be returned after a cycle-free problem (the CycleFreeFlux constraints of
+    _add_cycle_free around the current solution) has been solved and has kept it; the shortcut without any solve is for
+    boundary reactions only - whatever the bounds of the reaction and the direction of the step. The model is left as
+    it was (bounds, objective, direction)."""
+    prog = ctx.prog
+    fn = prog.func("cobra.flux_analysis.loopless", "loopless_fva_iter")
+    from ..framemodel import Ser as _Ser
+
+    def get_solution(it_, ev, c, args, kwargs):
+        model = args[0] if args else kwargs["model"]
+        ids = [r.id for r in model.reactions]
+        f = model.solves[-1][0] if model.solves else Formulation(model)
+        return SolutionLP(f, ids, model.solver.objective.value, _Ser([(model.last_fluxes or {}).get(i, 0.0) for i in ids], ids))
+
+    problems: List[str] = []
+    n = 0
+    classes = [("I_pos", False), ("I_back", False), ("I_cap", False), ("I_over", False), ("EX_in", True), ("EX_out", True)]
+    for direction in ("max", "min"):
+        for rid, boundary in classes:
+            for keeps in (True, False):
+                model = _model("max")
+                r = model.reactions.get_by_id(rid)
+                # the FVA step that precedes the call: the flux of this reaction was optimised in `direction`
+                lb_, ub_ = ROWS[rid][0]
+                current = (min(ub_, 4.0) if direction == "max" else max(lb_, -4.0)) if not boundary else ROWS[rid][2]
+                step_fluxes = {k: fl for k, (_, _, fl, _) in ROWS.items()}
+                step_fluxes[rid] = current
+                model.solver.objective = Obj(Lin.of(r.forward_variable) - Lin.of(r.reverse_variable), direction=direction, name="fva_step")
+                model.solver.objective.value = current
+                model.solver.status = "optimal"
+                model.last_fluxes = dict(step_fluxes)
+                log: List[Formulation] = []
+
+                def script(m, f, _log=log, _rid=rid, _cur=current, _keeps=keeps, _sf=step_fluxes):
+                    _log.append(f)
+                    fl = dict(_sf)
+                    # the cycle-free problem either keeps the optimum of the step or shows that it rested on a cycle
+                    fl[_rid] = _cur if (_keeps or len(_log) > 1) else 0.5 * _cur
+                    return fl[_rid], fl, "optimal"
+
+                model.script = script
+                it = Interp(prog, NATIVE, ["cobra.flux_analysis.loopless.loopless_fva_iter", "cobra.flux_analysis.loopless._add_cycle_free", "cobra.flux_analysis.helpers.normalize_cutoff"],
+                            {"cobra.core.solution.get_solution": get_solution, "cobra.core.get_solution": get_solution}, globals_={"Zero": Lin()})
+                model.tolerance = 1e-9
+                what = f"loopless_fva_iter({direction}imising {rid}, bounds {ROWS[rid][0]}, {'boundary' if boundary else 'internal'} reaction; the cycle-free problem {'keeps' if keeps else 'does not keep'} the optimum)"
+                try:
+                    out = _run(what, lambda: it.call(fn, [model, r], {}))
+                except EvalRaise as exc:
+                    problems.append(f"{what} raises {exc.exc_type}")
+                    continue
+                n += 1
+                if boundary:
+                    if out != current:
+                        problems.append(f"{what} returns {out!r} instead of the optimum of the step {current!r} (boundary reactions are not part of internal cycles)")
+                    continue
+                cyclefree = [f for f in log if f.objective_name != "fva_step" or [c_ for c_ in effective(model, f) if c_[0][0][0] == "<bounds>"]]
+                if not log:
+                    problems.append(f"{what} returns {out!r} without solving a cycle-free problem: the plain optimum of an internal reaction may rest on a thermodynamically infeasible cycle (the shortcut is for boundary reactions only, whatever the bounds and the direction)")
+                    continue
+                if keeps and out != current:
+                    problems.append(f"{what} returns {out!r} although the cycle-free problem kept the optimum {current!r}")
+                if model._stack or any((x.lower_bound, x.upper_bound) != model.original_bounds[x.id] for x in model.reactions):
+                    problems.append(f"{what}: the model is left modified (bounds or an open context)")
+                elif model.solver.objective.name != "fva_step" or model.solver.objective.direction != direction:
+                    problems.append(f"{what}: the objective of the FVA step is not restored (objective {model.solver.objective.name}, direction {model.solver.objective.direction})")
+    if problems:
+        ctx.bad(rule, fn, fn.node, problems[0] + (f" (+{len(problems) - 1} more)" if len(problems) > 1 else ""))
+    else:
+        ctx.ok(rule, fn, "loopless step", f"{n} scenarios (internal / boundary, forward / backward / forced reactions, both directions): the optimum of an internal reaction is returned only after a cycle-free problem kept it; the model is left as it was (evaluated)")
